@@ -24,8 +24,16 @@ impl History {
 
         let positions = self.zero_length_matches.get_mut(&cache_key);
         if let Some(positions) = positions {
+            #[cfg(feature = "verif-hooks")]
+            crate::verif::step(if positions.contains(&position) {
+                crate::verif::site::HIST_DUP
+            } else {
+                crate::verif::site::HIST_INS
+            });
             !positions.insert(position)
         } else {
+            #[cfg(feature = "verif-hooks")]
+            crate::verif::step(crate::verif::site::HIST_INS);
             let mut positions = HashSet::new();
             positions.insert(position);
             self.zero_length_matches.insert(cache_key, positions);
